@@ -69,14 +69,32 @@ use std::str::FromStr;
 #[macro_export]
 macro_rules! value_null {
   ($f:expr, $($a:tt)*) => {
-    Value::Null(Some(format!($f, $($a)*)))
+    Value::Null(Some($crate::values::limited_null_message(format!($f, $($a)*))))
   };
   ($l:expr) => {
-    Value::Null(Some(format!("{}", $l)))
+    Value::Null(Some($crate::values::limited_null_message(format!("{}", $l))))
   };
   () => {
     Value::Null(None)
   };
+}
+
+/// Maximum length (in bytes) of the message carried by a `null` value.
+pub const MAX_NULL_MESSAGE_LENGTH: usize = 4096;
+
+/// Shortens the message of a `null` value to [MAX_NULL_MESSAGE_LENGTH]. Messages quote the operands
+/// that caused them; an operand that is itself a `null` quotes its own message, so without a limit
+/// the message doubles with every operation that combines two such values.
+pub fn limited_null_message(mut message: String) -> String {
+  if message.len() > MAX_NULL_MESSAGE_LENGTH {
+    let mut end = MAX_NULL_MESSAGE_LENGTH;
+    while !message.is_char_boundary(end) {
+      end -= 1;
+    }
+    message.truncate(end);
+    message.push_str("...");
+  }
+  message
 }
 
 #[macro_export]
